@@ -397,7 +397,21 @@ def main():
         m = re.search(r"Found (\d+) problems? in (\d+)", o1)
         nprob = int(m.group(1)) if m else (0 if "No problems found" in o1 else None)
         bad = None
-        if "fatal" in o2:
+        # the extracted model of checkdirfile's reporting logic (coq/C20/Ascii2.v) decides what must be printed
+        op = 2 if "fatal" in o2 else (1 if ref.get("open", "0") not in ("0",) else 0)
+        ndang = int(ref.get("dangling", 0)); nprob_ref = int(ref.get("problems", 0)); nent = int(ref.get("entries", 0))
+        rcm, om = vlib.sh([drv], inp=("C %d %s %d %d %d %d\n" % (op, ref.get("cb", "0"), nprob_ref - ndang, max(nent - ndang, nprob_ref - ndang), ndang,
+                                                             1 if ref.get("nframes") == "err" else 0)).encode(), timeout=60)
+        mm = re.match(r"exit (\d+) syntax (\d+) problems (\d+)", om.strip())
+        if not mm:
+            bad = "model driver failed: " + om[:100]
+        elif op != 2 and (int(mm.group(1)) != rc1 or int(mm.group(2)) != n_syn or int(mm.group(3)) != (nprob if nprob is not None else -1)):
+            bad = "model of checkdirfile says exit %s, %s syntax lines, %s problems; the tool: exit %d, %d, %s" % (mm.group(1), mm.group(2), mm.group(3), rc1, n_syn, nprob)
+        elif op == 2 and int(mm.group(1)) != rc1:
+            bad = "model of checkdirfile says exit %s on a fatal open error; the tool exits %d" % (mm.group(1), rc1)
+        if bad:
+            pass
+        elif "fatal" in o2:
             if rc1 != 1 or "getdata error" not in o1:
                 bad = "gd_open fails (error %s) but checkdirfile exits %d without reporting it" % (ref.get("open"), rc1)
         else:
